@@ -183,7 +183,23 @@ pub fn c17() -> Outcome {
         ("unparsable number", good.replacen(" X1 R1 1", " X1 R1 1.0.0", 1)),
         ("unknown marker", good.replacen("COLUMNS\n", "COLUMNS\n M1 'MARKER' 'INTBEGIN'\n", 1)),
         ("unknown section", good.replacen("RHS\n", "RIGHTHAND\n", 1)),
+        // the same faults in the later sections
+        ("undeclared row in RHS", good.replacen(" RHS1 R1 4", " RHS1 NOROW 4", 1)),
+        ("unparsable number in RHS", good.replacen(" RHS1 R1 4", " RHS1 R1 4x", 1)),
+        ("unparsable number in BOUNDS", good.replacen(" UP BND X1 4", " UP BND X1 four", 1)),
+        ("unparsable number in the objective entry of COLUMNS", good.replacen(" X1 COST 1", " X1 COST 1e", 1)),
     ];
+    let good_r = render(&models()[3], 0);
+    let bad_r: Vec<(&str, String)> = vec![
+        ("undeclared row in RANGES", good_r.replacen(" RNG r1 2", " RNG norow 2", 1)),
+        ("unparsable number in RANGES", good_r.replacen(" RNG r1 2", " RNG r1 2..0", 1)),
+    ];
+    for (k, (name, text)) in bad_r.iter().enumerate() {
+        n += 1; d.insert((1100 + k, 0));
+        if text == &good_r { fail!(n, d, "internal: mutation '{name}' did not change the text:\n{good_r}"); }
+        let r = std::panic::catch_unwind(|| ommx::mps::load_raw_reader(text.as_bytes()));
+        match r { Ok(Err(_)) => {}, Ok(Ok(_)) => fail!(n, d, "malformed MPS text accepted ({name}):\n{text}"), Err(_) => fail!(n, d, "malformed MPS text caused a panic instead of an error ({name}):\n{text}") }
+    }
     for (k, (name, text)) in bad.iter().enumerate() {
         n += 1; d.insert((1000 + k, 0));
         if text == &good { fail!(n, d, "internal: mutation '{name}' did not change the text"); }
